@@ -147,8 +147,10 @@ impl FileSystem for OverlayFS {
     fn append_file(&self, path: &str) -> VfsResult<Box<dyn SeekAndWrite + Send>> {
         let write_path = self.write_path(path)?;
         if !write_path.exists()? {
+            // resolve the file first: a missing target must not materialise its parent directories
+            let read_path = self.read_path(path)?;
             self.ensure_has_parent(path)?;
-            self.read_path(path)?.copy_file(&write_path)?;
+            read_path.copy_file(&write_path)?;
         }
         write_path.append_file()
     }
